@@ -228,6 +228,47 @@ def oracle_before(toks: list[tuple[int, str]], i: int) -> str:
     return ''.join(s for _, s in reversed(rev[a:b]))
 
 
+def letters_of(toks) -> str:
+    return ''.join(('z' if not s else 's') if k < 2 else ('e' if not s else 'o') for k, s in toks)
+
+
+SPLIT_RE = re.compile(r'[ez]*s[sz]*e[ez]*s')       # blanks, a zero-width mark (not spacing), blanks again
+FINDING = 'C17:both-sides:blanks-before-eol'
+
+
+def text_run_after(toks: list[tuple[int, str]], j: int) -> str:
+    """The property's wording on the PRINTED TEXT: the maximal run of blanks/newlines that follows the model's
+    characters. Zero-width tokens print nothing; the run ends at the first character printed by a token that is
+    not Newline/Whitespace (indentation belongs to Indent / comment tokens: docs/special/indents.md)."""
+    out = ''
+    for k, s in toks[j + 1:]:
+        if not s:
+            continue
+        if k == 2:
+            break
+        out += s
+    return out
+
+
+def text_run_before(toks: list[tuple[int, str]], i: int) -> str:
+    out = ''
+    for k, s in reversed(toks[:i]):
+        if not s:
+            continue
+        if k == 2:
+            break
+        out = s + out
+    return out
+
+
+def split_after(toks, j: int) -> bool:
+    return SPLIT_RE.match(letters_of(toks[j + 1:])) is not None
+
+
+def split_before(toks, i: int) -> bool:
+    return SPLIT_RE.match(letters_of(list(reversed(toks[:i])))) is not None
+
+
 SPACINGS = ['', '\n', ' ', ' \t', '\r\n\n  ', '\t', '\n\n', '\r\n', '\r\r\n', '  \n\t', '\n    ', ' ' * 7]
 OUTSIDE = ['\r', 'x', ' a\n', '\r \n', '\n\r', '\\n', '\r\rx\n ']
 
@@ -302,6 +343,7 @@ class DocRun:
         self.cases: list[str] = []
         self.layout_case = ''
         self.fails: list[dict] = []
+        self.findings: list[dict] = []
         self.stats = {'models': 0, 'getter_checks': 0, 'pairs': 0, 'sets': 0, 'no_store': 0, 'shape_kept': 0,
                       'shape_broken': 0}
         self.get_sample = get_sample
@@ -314,8 +356,15 @@ class DocRun:
     def index(self):
         return {id(t): n for n, t in enumerate(self.store)}
 
+    def finding(self, what, k):
+        """The known deviation (a zero-width mark splits the run): reported once per document, does not stop the run."""
+        if not self.findings:
+            self.findings.append({'sig': FINDING, 'what': what,
+                                  'witness': {'text': self.text, 'ops': self.ops[:k], 'lf': self.lf}})
+        self.stats['mark_splits_run'] = self.stats.get('mark_splits_run', 0) + 1
+
     def check_getters(self, k: int, toks, idx):
-        """C17 getter statement for every model with a store."""
+        """C17 getter clause on the printed text, for every model with a store, both sides."""
         for n, m in enumerate(self.models):
             if m.token_store is None:
                 continue
@@ -324,63 +373,81 @@ class DocRun:
                 continue
             self.stats['getter_checks'] += 1
             got_a, got_b = m.spacing_after, m.spacing_before
-            exp_a, exp_b = oracle_after(toks, j), oracle_before(toks, i)
-            if got_a != exp_a or got_b != exp_b:
-                self.fail('C17:getter', f'{type(m).__name__}: spacing_before/after = {got_b!r}/{got_a!r}, the '
-                          f'adjacent runs of Newline/Whitespace tokens are {exp_b!r}/{exp_a!r}', k)
-                return
             if ''.join(t.raw_text for t in m.raw_spacing_after) != got_a or \
                     ''.join(t.raw_text for t in m.raw_spacing_before) != got_b:
                 self.fail('C17:getter', 'raw_spacing_* and spacing_* disagree', k)
                 return
+            for side, got, want, split, scan in (
+                    ('after', got_a, text_run_after(toks, j), split_after(toks, j), oracle_after(toks, j)),
+                    ('before', got_b, text_run_before(toks, i), split_before(toks, i), oracle_before(toks, i))):
+                if got == want:
+                    continue
+                if split and got == scan:
+                    self.finding(f'{type(m).__name__}.spacing_{side} = {got!r} but the run of blanks/newlines adjacent '
+                                 f'to it in the text is {want!r}: a zero-width mark (end-of-line mark, placeholder) '
+                                 f'sits inside the run and the scan stops there', k)
+                    continue
+                self.fail('C17:getter', f'{type(m).__name__}.spacing_{side} = {got!r}, the adjacent run of '
+                          f'blanks/newlines in the text is {want!r}', k)
+                return
+
+    def pair(self, k, toks, ma, mb, gap) -> bool:
+        """both-sides clause for one pair: ma ends where the gap starts, mb starts where it ends."""
+        self.stats['pairs'] += 1
+        between = ''.join(s for _, s in gap)
+        sa, sb = ma.spacing_after, mb.spacing_before
+        if sa == sb == between:
+            return True
+        letters = letters_of(gap)
+        if re.fullmatch(r'[ez]*[sz]*[ez]*', letters) is None:
+            # spacing - mark - spacing: each side must then report its own part of the run
+            self.stats['shape_broken'] += 1
+            m1 = re.match(r'[ez]*([sz]*)', letters)
+            m2 = re.match(r'[ez]*([sz]*)', letters[::-1])
+            exp_a = ''.join(s for _, s in gap[m1.start(1):m1.end(1)])
+            exp_b = ''.join(s for _, s in gap[len(gap) - m2.end(1):len(gap) - m2.start(1)])
+            if sa == exp_a and sb == exp_b:
+                self.finding(f'{type(ma).__name__}.spacing_after = {sa!r} but the following '
+                             f'{type(mb).__name__}.spacing_before = {sb!r}; the text between them is the single run '
+                             f'{between!r}, split by a zero-width mark', k)
+                return True
+        self.fail('C17:both-sides', f'{type(ma).__name__}.spacing_after = {sa!r}, the following '
+                  f'{type(mb).__name__}.spacing_before = {sb!r}, the text between them is {between!r} '
+                  f'(gap {letters!r})', k)
+        return False
 
     def check_both_sides(self, k: int, toks, fresh: bool):
-        """Adjacent models see the same run: token-level neighbours (a, b visible, nothing visible between)."""
+        """Adjacent models see the same run, on the printed text: consecutive visible tokens, and (tree level) a
+        model and every model that starts at the next visible token."""
         store_list = list(self.store)
         vis = [n for n, (kk, s) in enumerate(toks) if kk == 2 and s]
         for a, b in zip(vis, vis[1:]):
-            gap = toks[a + 1:b]
-            letters = ''.join(('z' if not s else 's') if kk < 2 else 'e' for kk, s in gap)
-            shaped = re.fullmatch(r'[ez]*[sz]*[ez]*', letters) is not None
-            if not shaped:
-                # spacing - zero-width mark - spacing (e.g. blanks in front of the end-of-line mark, then the
-                # line break): by design each side reports the run up to the mark; C17_both_sides has the
-                # shape as its hypothesis
-                self.stats['shape_broken'] += 1
-                continue
-            self.stats['shape_kept'] += 1
-            self.stats['pairs'] += 1
             ta, tb = store_list[a], store_list[b]
             if not hasattr(ta, 'spacing_after') or not hasattr(tb, 'spacing_before'):
                 continue
-            sa, sb = ta.spacing_after, tb.spacing_before
-            if sa != sb:
-                self.fail('C17:both-sides', f'{type(ta).__name__}.spacing_after = {sa!r} but '
-                          f'{type(tb).__name__}.spacing_before = {sb!r} (gap {letters!r})', k)
+            if re.fullmatch(r'[ez]*[sz]*[ez]*', letters_of(toks[a + 1:b])) is not None:
+                self.stats['shape_kept'] += 1
+            if not self.pair(k, toks, ta, tb, toks[a + 1:b]):
                 return
-        if fresh:
-            # tree level: a model and the model that starts at the next visible token
-            idx = self.index()
-            starts: dict[int, list] = {}
-            for m in self.models:
-                if m.token_store is not None and id(m.first_token) in idx:
-                    starts.setdefault(idx[id(m.first_token)], []).append(m)
-            for m in self.models:
-                if m.token_store is None or id(m.last_token) not in idx:
-                    continue
-                j = idx[id(m.last_token)]
-                nxt = next((v for v in vis if v > j), None)
-                if nxt is None:
-                    continue
-                letters = ''.join(('z' if not s else 's') if kk < 2 else 'e' for kk, s in toks[j + 1:nxt])
-                if re.fullmatch(r'[ez]*[sz]*[ez]*', letters) is None:
-                    continue
-                for m2 in starts.get(nxt, []):
-                    self.stats['pairs'] += 1
-                    if m.spacing_after != m2.spacing_before:
-                        self.fail('C17:both-sides', f'{type(m).__name__}.spacing_after = {m.spacing_after!r} but the '
-                                  f'following {type(m2).__name__}.spacing_before = {m2.spacing_before!r}', k)
-                        return
+        if not fresh:
+            # tree level only on the document as parsed: a model may END in blanks (directive with blanks before its
+            # end-of-line mark); once an edit removes the line break behind it the next model's run reaches into it
+            return
+        idx = self.index()
+        starts: dict[int, list] = {}
+        for m in self.models:
+            if m.token_store is not None and id(m.first_token) in idx:
+                starts.setdefault(idx[id(m.first_token)], []).append(m)
+        for m in self.models:
+            if m.token_store is None or id(m.last_token) not in idx:
+                continue
+            j = idx[id(m.last_token)]
+            nxt = next((v for v in vis if v > j), None)
+            if nxt is None:
+                continue
+            for m2 in starts.get(nxt, []):
+                if not self.pair(k, toks, m, m2, toks[j + 1:nxt]):
+                    return
 
     def run(self):
         """With self.lf set, the token store's load factor is pinned to it for the whole run (documents of a few
@@ -534,7 +601,7 @@ def run_all(ctx: common.Ctx):
         else:
             ops = gen_ops(ctx.rng, max(n_models, 1), n_ops)
             run = DocRun(text, ops, 4, ctx.rng).run()
-        for f_ in run.fails:
+        for f_ in run.fails + run.findings:
             if f_['sig'].startswith('C17'):
                 ctx.monitor_failure(f_['sig'], f_['what'], f_['witness'])
             else:
@@ -608,8 +675,10 @@ def run(ctx: common.Ctx):
                 'non-trivial when at least one assignment ran; distinct by (size, newline kind, tabs, ops)')
     ctx.assumptions += ['token identity is position in the store list (TokenStore = plain list: C07)',
                         'the Parser is an oracle: its token lists are inputs; spacing tokens hold only blanks (checked on each); '
-                        'both-sides is demanded for gaps of shape empties* spacing* empties* (its hypothesis; blanks before an '
-                        'end-of-line mark followed by the line break do not have it: each side reports its own run)',
+                        'getter and both-sides clauses are evaluated on the printed text; where a zero-width mark splits the run '
+                        '(blanks before an end-of-line mark, then the line break) the code deviates by design: reported under '
+                        'the one signature C17:both-sides:blanks-before-eol (C17_get_refuted / C17_both_sides_refuted), and only '
+                        'when each side returns exactly its own part of the run',
                         'text of non-spacing tokens is abbreviated to two characters in the Coq cases '
                         '(the model only tests it for emptiness)',
                         'CPython re.findall on ([ \\t]+)|(\\r*\\n) as modelled by text_to_tokens (validated per string)']
@@ -627,11 +696,11 @@ def replay(ctx, path):
     w = f.get('witness') or {}
     if 'text' in w:
         run = DocRun(w['text'], w.get('ops', []), 1000, lf=w.get('lf')).run()
-        for x in run.fails:
+        for x in run.fails + run.findings:
             print('monitor:', x['sig'], x['what'])
         bad = ctx.run_coq_cases('replay', PREAMBLE, 'scase', 'check_case', run.cases, chunk=30)
         print('model/implementation agree' if not bad else f'model/implementation DISAGREE on cases {bad[:5]}')
-        return 1 if (run.fails or bad) else 0
+        return 1 if (run.fails or run.findings or bad) else 0
     if 'string' in w:
         *_, sa = impl()
         s = w['string']
